@@ -1035,6 +1035,64 @@ def observe_serve_precision(ctx, divs):
         shutil.rmtree(d, ignore_errors=True)
 
 
+def check_startup_sequence(ctx, divs):
+    """The start-up sequence of a run, as `run_async` performs it - `load_or_init_model()`, then
+    `serve_mode()` - followed by the first `train_mode()` of a training step, on a directory that
+    holds a snapshot with full-precision parameters: the parameters trained on are the snapshot's,
+    bit for bit, whatever the serving precision (resume and the mode switch compose)."""
+    import contextlib
+    import io
+
+    from ..lib import snap_common as sc
+
+    m = sc.mods()
+    for serve in ("bfloat16", "float16", "float32"):
+        for via in ("resume", "load_model"):
+            d = tempfile.mkdtemp(prefix="c19-start-")
+            try:
+                run = sc.fresh_run(d, {"serve_dtype": serve})
+                sc.init_state(run, 41, 3)
+                want = sc.params_fp(run.state.model.state_dict())  # training precision
+                hook = m.saving.SavingHook(freq=1)
+                hook.before_run(run.state, run.config)
+                with contextlib.redirect_stdout(io.StringIO()):
+                    hook.after_step(run.state)
+                opts = {"serve_dtype": serve}
+                if via == "load_model":
+                    # a new run directory initialised from the snapshot's model (`--load-model`)
+                    opts["load_model"] = os.path.realpath(os.path.join(d, "latest"))
+                    d2 = tempfile.mkdtemp(prefix="c19-start2-")
+                else:
+                    d2 = d
+                try:
+                    run2, (kind, detail, _) = sc.resume_outcome(d2, opts)
+                    got_loaded = sc.params_fp(run2.state.model.state_dict()) if kind in ("loaded", "fresh") else None
+                    err = None
+                    try:
+                        run2.serve_mode()
+                        run2.train_mode()
+                        got = sc.params_fp(run2.state.model.state_dict())
+                    except Exception as e:
+                        got, err = None, type(e).__name__
+                finally:
+                    if d2 != d:
+                        shutil.rmtree(d2, ignore_errors=True)
+                ctx.evaluated()
+                ctx.count("startup-sequence:%s:%s" % (via, serve))
+                if got != want:
+                    divs.append(
+                        Divergence(
+                            "corr.snapshot:startup",
+                            {"kind": "startup-sequence", "serve_dtype": serve, "via": via},
+                            "after load_or_init_model(); serve_mode(); train_mode() the parameters %s (right after loading they %s the snapshot's)%s"
+                            % ("differ from the snapshot's" if got is not None else "could not be read", "equal" if got_loaded == want else "already differ from", " [%s]" % err if err else ""),
+                            "the snapshot's parameters, bit for bit",
+                        )
+                    )
+            finally:
+                shutil.rmtree(d, ignore_errors=True)
+
+
 # ---------------------------------------------------------------------------------------------
 
 _RUNS = []
@@ -1116,6 +1174,7 @@ def tie(ctx):
     check_model_roundtrip(ctx, divs)
     check_window(ctx, divs)
     observe_serve_precision(ctx, divs)
+    check_startup_sequence(ctx, divs)
     ctx.exhaustive = True  # every crash point of every scripted history was enumerated
     return divs
 
@@ -1125,6 +1184,7 @@ KEY_OF_COMPONENT = {
     "corr.snapshot:roundtrip": "roundtrip-mismatch",
     "corr.snapshot:window": "window-wrong",
     "corr.snapshot:serve-precision": "serve-precision-snapshot",
+    "corr.snapshot:startup": "startup-sequence-loses-precision",
 }
 
 
@@ -1199,6 +1259,10 @@ def replay(ctx, data):
     if kind == "window":
         check_window(ctx, divs)
         return [Violation("window-wrong", "%s: %s vs %s" % (d.input, d.impl, d.model), d.input) for d in divs]
+    if kind == "startup-sequence":
+        check_startup_sequence(ctx, divs)
+        return [Violation("startup-sequence-loses-precision", "%s: %s vs %s" % (d.input, d.impl, d.model), d.input) for d in divs
+                if d.input.get("serve_dtype") == r.get("serve_dtype") and d.input.get("via") == r.get("via")]
     if kind == "serve-precision":
         os.environ.setdefault("VERIF_C19_STRICT_PRECISION", "1")
         observe_serve_precision(ctx, divs)
